@@ -163,8 +163,9 @@ def run(ck: Check):
                     % (t_prove, NPROC, time.time() - t0))
     ck.cover(dist=dict({k: v for k, v in sorted(tags.items())},
                        model_answers_certified_by_checkDomTree=total["certified"], model_answers_uncertified=total["uncertified"]))
-    ck.partial.append("domlt_correct_full (Lengauer-Tarjan's semidominator theorems for the model, i.e. 'the model never produces a tree "
-                      "that checkDomTree rejects') is not proved; it is replaced by domLT_certified + the verified checker run on every case")
+    ck.notes.append("domlt_correct (Lengauer-Tarjan correctness of the model for all well-formed graphs: total, returns the dominator tree) "
+                    "is proved in Lean; the per-case run of the verified checker on the model's answer is kept as a redundant cross-check "
+                    "(domLT_always_certified proves it can never reject)")
     ck.assumptions.append("Python dict/set are modelled as functions / insertion-ordered duplicate-free lists; iteration order of "
                           "pred[w] and bucket[pw].pop() (hash order in Python) is insertion order in the model - the returned dict must not depend on it")
     ck.notes.append("unrooted graphs are compared model-vs-code and certified, but not judged by the oracle: the property speaks of rooted graphs")
